@@ -28,7 +28,7 @@ def bounds(tier):
 def assumptions():
     return ["values are assigned with an already trimmed first line; continuation lines are compared verbatim",
             "comment lines are lines starting with '#' in column 0", "clearsign armor: BEGIN PGP SIGNED MESSAGE, "
-            "Hash header, blank line, payload, blank line, signature block"]
+            "0, 1 or 2 Hash armor headers, blank line, payload, blank line, signature block"]
 
 
 NAMES = ["A", "Long-Name", "x1", "a9"]
@@ -68,8 +68,11 @@ def forms(text):
             ("lines_nonl", lambda: list(nonl)), ("textio", lambda: io.StringIO(text)), ("bytesio", lambda: io.BytesIO(b))]
 
 
-def armor(text):
-    return ("-----BEGIN PGP SIGNED MESSAGE-----\nHash: SHA512\n\n" + text +
+ARMOR_HEADERS = [("1hdr", "Hash: SHA512\n"), ("2hdr", "Hash: SHA256\nHash: SHA1\n"), ("0hdr", "")]
+
+
+def armor(text, headers="Hash: SHA512\n"):
+    return ("-----BEGIN PGP SIGNED MESSAGE-----\n" + headers + "\n" + text +
             "\n-----BEGIN PGP SIGNATURE-----\n\niQabc\n=xyz\n-----END PGP SIGNATURE-----\n")
 
 
@@ -124,17 +127,19 @@ def check_single(par, full):
                 bad.append(("deb822/single/%s/%s" % (vclass, fn), want, "%r from %r" % (got, t)))
             elif gp != [want]:
                 bad.append(("deb822/single-iter/%s/%s" % (vclass, fn), [want], "%r from %r" % (gp, t)))
-    a = armor(text)
-    for fn, mk in forms(a):
-        for cls in (Deb822, Dsc, Changes):
-            n += 1
-            try:
-                got = list(cls(mk()).items())
-            except Exception as e:
-                bad.append(("deb822/armor/raises/%s/%s" % (fn, cls.__name__), want, "%s: %s" % (type(e).__name__, e)))
-                continue
-            if got != want:
-                bad.append(("deb822/armor/%s/%s" % (fn, cls.__name__), want, "%r from %r" % (got, a)))
+    for hn, hdrs in ARMOR_HEADERS:
+        a = armor(text, hdrs)
+        for fn, mk in forms(a):
+            for cls in (Deb822, Dsc, Changes):
+                n += 1
+                try:
+                    got = list(cls(mk()).items())
+                except Exception as e:
+                    bad.append(("deb822/armor-%s/raises/%s/%s" % (hn, fn, cls.__name__), want,
+                                "%s: %s" % (type(e).__name__, e)))
+                    continue
+                if got != want:
+                    bad.append(("deb822/armor-%s/%s/%s" % (hn, fn, cls.__name__), want, "%r from %r" % (got, a)))
     n += 1
     rd = Deb822(text).dump()
     if rd != text:
